@@ -74,6 +74,8 @@ def records(ctx):
                             b = c
                         else:
                             b = rand_spectrum(rng, sh, folded=fb, labels=rng.choice([la, None]), integer=False)
+                            if rep % 2 == 1 and la is not None:      # every second repetition: the LEFT operand unlabelled, the right one labelled
+                                a.pop_ids = None
                             b.data[b.data == 0] = 2.5
                             inp = {'a': enc(a), 'b': enc(b), 'op': opn, 'refl': mode == 'refl'}
                         if mode == 'plain':
@@ -91,6 +93,7 @@ def records(ctx):
                                 return x
                             out = observe(f)
                         inp['values'] = not (opn == 'floordiv' or (opn == 'pow' and (fb is not None or mode == 'refl')))
+                        inp['inplace'] = (mode == 'inplace')
                         recs.append({'id': 'arith-%d' % next(nid), 'op': 'arith', 'in': inp, 'out': out,
                                      'site': 'Spectrum.__%s%s__' % ({'plain': '', 'refl': 'r', 'inplace': 'i'}[mode], opn)})
     # right operands that are not spectra: a plain numpy masked array (its mask must enter the result like a spectrum's), a
@@ -115,7 +118,7 @@ def records(ctx):
                     eb['m'] = [bool(x) for x in np.ma.getmaskarray(b).ravel()]
                     eb['f'] = bool(a.folded)          # a plain array carries no folding status: nothing to refuse
                     eb['ids'] = []
-                    inp = {'a': enc(a), 'b': eb, 'op': opn, 'refl': mode == 'refl', 'values': True, 'operand': kind}
+                    inp = {'a': enc(a), 'b': eb, 'op': opn, 'refl': mode == 'refl', 'values': True, 'operand': kind, 'inplace': mode == 'inplace'}
                     if mode == 'plain':
                         out = observe(lambda: ops[opn](a, b))
                     elif mode == 'refl':
@@ -177,6 +180,25 @@ def records(ctx):
             add(op, dict(inp, s=before), o1, site)
             add(op, dict(inp, s=before), o2, site + '[second call on the same object]')
             recs.append({'id': 'unchanged-%d' % next(nid), 'op': 'unchanged', 'in': {'law': 'ObjectUnchangedBy:' + op}, 'out': {'s': before, 't': after}, 'site': site})
+    # per-bin likelihood where model and data hold exact zeros - in jointly unmasked bins and under masks (folded data hold
+    # zeros in the folded-out half): the result keeps the folding status, the labels and EXACTLY the data's mask
+    for k in range(6 if ctx.quick else 36):
+        ndim = [1, 2, 3][k % 3]
+        sh = rand_shape(r3, ndim, 3, {1: 10, 2: 6, 3: 4}[ndim])
+        a = rand_spectrum(r3, sh, folded=(k % 2 == 0), labels=rand_labels(r3, ndim), integer=True, mask_mode=['single', 'random', 'corners'][k % 3])
+        model = dadi.Spectrum(np.asarray(a.data) * 1.1, mask=np.ma.getmaskarray(a), mask_corners=False, data_folded=bool(a.folded), check_folding=False, pop_ids=a.pop_ids)
+        free = [ix for ix in np.ndindex(*sh) if not np.ma.getmaskarray(a)[ix]]
+        for ix in free[:: max(1, len(free) // 3)][:2]:       # exact zeros in both, in unmasked bins
+            a.data[ix] = 0.0
+            model.data[ix] = 0.0
+        for name, fn in (('ll_per_bin_zeros', lambda: Inference.ll_per_bin(model, a)),):
+            try:
+                res = fn()
+                out = {'f': str(getattr(res, 'folded', 'missing')), 'ids': [str(x).split('+') for x in res.pop_ids] if res.pop_ids else [],
+                       'm': [bool(x) for x in np.ma.getmaskarray(res).ravel()]}
+            except Exception as e:
+                out = {'f': 'raised ' + type(e).__name__}
+            recs.append({'id': 'keep-%d' % next(nid), 'op': 'keep', 'in': {'s': enc(a), 'what': name}, 'out': out, 'site': 'Spectrum.' + name})
     # a refused operation (mixed folding) must leave both operands as they were - in particular the in-place forms
     for k, opn in enumerate(['add', 'sub', 'mul', 'div', 'floordiv', 'pow']):
         ndim = [1, 2, 3][k % 3]
